@@ -59,6 +59,9 @@ type Plan struct {
 	JournalFS bool   `json:"journal_fs"`
 	RawKeys   bool   `json:"raw_keys"`
 	NOps      int    `json:"nops"`
+	// Script, when non-empty, fixes the kinds of the first operations (directed scenario:
+	// journal written with an un-flushed write buffer, restart, rollback inside the buffer).
+	Script string `json:"script,omitempty"`
 }
 
 // Step is one executed operation, logged by the workload after it completed.
@@ -78,6 +81,22 @@ func genPlan(r *vrt.Run, hi int) Plan {
 	p.JournalFS = rng.Intn(2) == 0
 	p.RawKeys = rng.Intn(2) == 0
 	p.NOps = 8 + rng.Intn(r.N(22, 34))
+	if hi%3 == 2 {
+		// Directed family: a large buffer and a small layer cap keep merged transitions in the
+		// write buffer, the journal persists them, and a rollback after the restart stays
+		// inside the buffer, so the persistent state id does not move.
+		p.Buffer = []int{4096, 16384, 1 << 20}[rng.Intn(3)]
+		p.MaxDiff = []int{2, 3}[rng.Intn(2)]
+		p.JournalFS = rng.Intn(3) == 0 // a journal file's unlink is durable at once in the crash model; the key-value journal is not
+		sc := strings.Repeat("U", 5+rng.Intn(6)) + "J" + strings.Repeat("U", rng.Intn(3)) + "R" + strings.Repeat("U", 1+rng.Intn(3))
+		if rng.Intn(2) == 0 {
+			sc += "J" + strings.Repeat("U", rng.Intn(2)) + "R" + strings.Repeat("U", 1+rng.Intn(2))
+		}
+		p.Script = sc
+		if p.NOps < len(sc)+2 {
+			p.NOps = len(sc) + 2
+		}
+	}
 	return p
 }
 
@@ -178,7 +197,9 @@ func workloadChild(r *vrt.Run) {
 	mark("START")
 	for i := 0; i < p.NOps; i++ {
 		kind := "U"
-		if len(m.chain) > 2 {
+		if i < len(p.Script) {
+			kind = string(p.Script[i])
+		} else if len(m.chain) > 2 {
 			switch k := rng.Intn(100); {
 			case k < 66:
 			case k < 74:
@@ -637,9 +658,31 @@ func run(r *vrt.Run) {
 					special = append(special, c)
 				}
 			}
+			// positions inside a rollback first: Recover interleaves key-value writes, a
+			// key-value sync and freezer truncations, the ordering the property is about
+			var inR []int
+			for _, c := range cands {
+				if interesting[c] == "kvop" {
+					continue
+				}
+				for k := range steps {
+					if steps[k].Kind == "R" && begin[k] <= c && c < end[k] {
+						inR = append(inR, c)
+						break
+					}
+				}
+			}
+			rng.Shuffle(len(inR), func(i, j int) { inR[i], inR[j] = inR[j], inR[i] })
+			for _, c := range inR {
+				if len(chosen) >= posPer/2 {
+					break
+				}
+				chosen[c] = true
+			}
+			r.Count("crash_positions_inside_rollback", len(chosen))
 			rng.Shuffle(len(special), func(i, j int) { special[i], special[j] = special[j], special[i] })
 			for _, c := range special {
-				if len(chosen) >= posPer*2/3 {
+				if len(chosen) >= posPer*5/6 {
 					break
 				}
 				chosen[c] = true
